@@ -36,6 +36,30 @@ INFO = {
  'C16b': ('alp example: break out of the runway loop of the domain at the first runway that is too late', '>= 2 runways whose last landed classes need different separations'),
  'C18b': ('SimpleDominanceChecker::is_dominated_or_insert: entry() replaced by get_mut() then blind insert for a new key', 'two threads recording the first two states of the same (depth, key): one front overwrites the other'),
  'C20': ('Mdd::add_terminal_node drops the best_node.is_some() guard', 'infeasible diagram with the dead end exactly on the last variable'),
+ 'C02b': ('Mdd::_relax: the statement flagging the merged node relaxed is deleted (a recycled kept node stays exact): the relaxed diagram claims exactness and hands out a solution which does not replay', 'merge result equal to the state of a kept node whose redirected arc becomes its best arc'),
+ 'C13b': ('Mdd::_relax: when the merged node is a recycled kept node the layer is no longer truncated to max_width', 'a merge result equal to a kept state in a layer wider than the width'),
+ 'C17b': ('gap(): the opposite-sign test (ub < 0) != (lb < 0) replaced by ub * lb < 0', 'bounds whose product overflows (panic in debug builds), or a zero bound next to a negative one'),
+ 'C19b': ('sequential enqueue_cutset computes min(parent ub, node ub) for the pruning test but no longer stores it in the node it pushes', 'a cut-set node whose own bound exceeds the bound of its parent, the cut-off firing between the pops'),
+ 'C20b': ('Pooled::_finalize_layers no longer records an EMPTY terminal layer', 'infeasible pooled diagram: add_terminal_node takes the last recorded (non terminal) layer for the terminal one'),
+ 'C16c': ('psp example: Psp::transition records next = decision.value also for an IDLE period', 'an optimal plan with an idle period between two productions (change-over cost charged against the wrong item)'),
+ 'C16d': ('max2sat example: tautological clauses (see notes.md)', 'an instance holding a clause x or not x'),
+ # round 3
+ 'C01r3': ('Mdd::_compute_thresholds: a cut-set node whose local bound is <= the incumbent gets theta = best_known - value_bot WITHOUT the minimum with the theta propagated from its children (same site as the first C09 seed, found independently)', 'SimpleCache, LEL or frontier, narrow width, a loose rough bound, a state reached again later with a better value (1 run in 9000 on random tiny DPs)'),
+ 'C02r3': ('Mdd::_relax: the statement flagging the merged node relaxed is deleted (a recycled kept node stays exact) -- third independent rediscovery of this change', 'merge result equal to a kept state, relax() raising the redirected arc above the kept value, width 2 exactly'),
+ 'C03r3': ('parallel maybe_update_best takes the lock only when the diagram beats the best_lb the worker read BEFORE compiling, then overwrites without re-checking', '>= 2 workers compiling concurrently: W2 reads L, W1 publishes X, W2 finds Y with L < Y < X and writes Y'),
+ 'C04r3': ('get_workload parks on the monitor in the cache-skip branch when the fringe became empty (skips the completion test)', 'SimpleCache, the last open node rejected by the cache while nothing is in progress (third rediscovery of this family)'),
+ 'C05r3': ('abort path tidied in two places: notify_node_finished now runs BEFORE abort_search, and abort_search returns early when another worker has already aborted (each edit alone is sound)', 'two workers both cut off, both past notify_node_finished before either enters abort_search: the bound of the second worker\'s node is covered by nobody'),
+ 'C07r3': ('_finalize_exact (Mdd and Pooled): a diagram without terminal node sets has_exact_best_path whatever the compilation type', 'a restricted compilation whose truncated layer\'s kept nodes all die (dead end or rough-bound pruning against a particular incumbent) while a dropped node beats the incumbent'),
+ 'C08r3': ('Mdd::_relax no longer flags a recycled node relaxed (fourth rediscovery), shown through the frontier cut-set', 'union style merge equal to a kept state, frontier cut-set, a second ordinary merge deeper, a value tie'),
+ 'C09r3': ('Mdd::_compute_thresholds: _maybe_update_cache moved out of the if !pruned_by_cache block: a node pruned by the cache is written back with explored = !is_cutset of the CURRENT diagram', 'DD1 leaves s in its cut-set (on the fringe), DD2 re-reaches s at a value <= v strictly above its own cut-set and is pruned by the cache, s is then popped and skipped'),
+ 'C10r3': ('Pooled::_move_to_next_layer filters with dominance BEFORE the clone which remembers the layer: dominated nodes belong to no remembered layer and their theta never reaches their parents', 'Pooled + SimpleCache + a dominance rule using the value, a state reached again with a better value after its children were dominated (>= 5 items)'),
+ 'C11r3': ('NoDupFringe::pop: if heap.len() <= 1 shortcut skips the pos[new_root] = 0 repair after swap_remove', 'a pop taking the fringe from exactly two nodes to one, immediately followed by an improving re-push of the survivor: index out of bounds in bubble_up'),
+ 'C12r3': ('Pooled::_drain_cutset emits depth: path.len() instead of node.depth', 'Pooled, long arcs above a cut-set node, that sub-problem explored later (the optimum stays right)'),
+ 'C13r3': ('Times::max_width returns the decorated width unclamped when the factor is exactly 1', 'factor 1 and an inner heuristic answering 0'),
+ 'C15r3': ('Pooled::_initialize restarts at LayerId(path_to_root.len()) instead of the residual depth', 'a cut-set sub-problem whose path went through a long arc made by an ANCESTOR (or the initial state), narrow width, depth-free state'),
+ 'C16yr3': ('knapsack example: ratio key divides by weight.max(1) (division-by-zero guard)', 'an item of weight 0 and positive profit sorting behind heavier items, width 1'),
+ 'C17r3': ('gap() = ((ub - lb) as f32 / max magnitude).min(1.0): the opposite-sign branch dropped', 'lb < 0 < ub with |lb| + |ub| >= 2^63: overflow (panic in debug, negative gap in release)'),
+ 'C18r3': ('SimpleDominanceChecker::is_dominated_or_insert checks under get_mut + retain, drops the guard, then pushes through entry().or_default()', 'two threads recording comparable states a < b on one key, both past retain before either push: store {a, b}; only the THRESHOLD of later dominated verdicts is wrong'),
 }
 HISTORY = {
  'C02': 'first run: MISSED by every check (the hooks then reported lock acquisitions from six named places only; this change adds a second lock() inside a hooked function) -> hooks rewritten as Mutex/Condvar wrappers reporting EVERY acquisition',
@@ -54,7 +78,7 @@ HISTORY = {
 results = {}
 for f in sys.argv[1:]:
     for l in open(f):
-        m = re.match(r'SEED seed(C\d+b?) suite\(pass/fail\)=(.*?)\s+demo-with-change\(pass/fail\)=(\S+) demo-without\(pass/fail\)=(\S+) checks:(.*)', l)
+        m = re.match(r'SEED seed(C\d+\w*?) suite\(pass/fail\)=(.*?)\s+demo-with-change\(pass/fail\)=(\S+) demo-without\(pass/fail\)=(\S+) checks:(.*)', l)
         if m: results[m.group(1)] = m.groups()[1:]
 rows = []
 for pid in sorted(results):
@@ -71,7 +95,7 @@ for pid in sorted(results):
     for fn in ('patch.diff', 'seed_demo.rs', 'notes.md'):
         if src != dst and os.path.exists(os.path.join(src, fn)): shutil.copy(os.path.join(src, fn), os.path.join(dst, fn))
     what, needs = INFO.get(pid, ('', ''))
-    meta = {'property': pid, 'change': what, 'needs_to_manifest': needs,
+    meta = {'property': pid[:3], 'seed': pid, 'change': what, 'needs_to_manifest': needs,
             'confirmed': {'repository_suite_with_change (pass/fail: unit, xtask, doc)': suite.strip(), 'demonstration_with_change (pass/fail)': dw, 'demonstration_without_change (pass/fail)': dwo,
                           'how': 'tools_seed.sh: scratch worktree of /repo HEAD, patch applied with patch -p1, cargo test --workspace --offline, demonstration copied to ddo/tests/seed_demo.rs and run with and without the patch'},
             'checks_run (quick tier, VERIF_REPO=<scratch copy>)': [{'check': c, 'exit': int(e), 'first_signatures': s[:300]} for c, e, s in cs],
